@@ -181,9 +181,12 @@ PROPS = {
                 "first preamble byte, complete preamble then silence, 64 KiB unread} x {stalled first, healthy first, "
                 "interleaved} x both runtimes, then 3+3 healthy streams, a datagram and a clean close; the model side is "
                 "Handoff.drain on the same arrival order with the capacities and the slot-reservation structure the "
-                "translator read from accept_uni/accept_bi; non-trivial = distinct line",
+                "translator read from accept_uni/accept_bi; the same with 1..40 datagrams sent first that the application "
+                "never asks for (model: WorkerLoop on the same schedule with the await-freedom of the select handlers "
+                "read from run_impl); non-trivial = distinct line",
         "extracted_keys": ["CAP_READY_UNI_WT", "CAP_READY_BI_WT", "CAP_READY_UNI_H3", "CAP_READY_BI_H3",
-                           "HANDOFF_RESERVE_FIRST_UNI", "HANDOFF_RESERVE_FIRST_BI"],
+                           "HANDOFF_RESERVE_FIRST_UNI", "HANDOFF_RESERVE_FIRST_BI", "CAP_READY_DATAGRAMS",
+                           "WORKER_HANDLERS_AWAIT_FREE", "DGRAM_SLOT_BEFORE_READ", "WORKER_SELECT_ARMS"],
         "trusted": ["tokio mpsc (bounded FIFO, Sender::send waits for capacity) and quinn accept_uni/accept_bi (streams "
                     "in id order) are the specification record of the pipeline's parts"],
         "assumptions": ["fair scheduling of spawned tasks (tokio); the application keeps accepting",
@@ -278,8 +281,10 @@ LEVEL_TEXT = {
     "C07": "Lean 4 theorems over the hand-off pipeline model, for every schedule and every set of streams stalled inside "
            "their preamble: each internal step decreases a measure (fair completions terminate) and a state where nothing "
            "can happen has no healthy stream undelivered (C07_full), given the structural fact extracted from the source on "
-           "every run that no queue slot is taken before the preamble is read; tied by the e2e stall matrix, on which the "
-           "same executable model predicts every count",
+           "every run that no queue slot is taken before the preamble is read; the worker's select loop for every schedule "
+           "of datagrams, streams and close with an application that never reads datagrams accepts every stream and "
+           "processes the close (C07_unasked_datagrams), given the extracted fact that no select handler awaits; tied by "
+           "the e2e stall matrix, on which the same executable models predict every count",
     "C08": "Lean 4 invariant by induction over ALL action sequences (opens, worker accepts, tasks finishing/failing, "
            "application accepts, cancelled accept calls): every opened stream is in exactly one place, delivered at most "
            "once, none invented, queue never above capacity; tied by the e2e acceptance-pace matrix with cancellation",
